@@ -408,7 +408,7 @@ SPEC = {
         "e2e: 1 request in 14 carries a 100 ms client-side request timeout (all other requests: none); 40 % of the scenarios "
         "run on nodes with 2-3 shards (one connection per shard); *_iter requests on sharded nodes fetch one page; "
         "UnableToAllocStreamId and the Percentile policy are not produced end to end",
-        "e2e: scenarios that cannot start (mock / session / prepare failure, pools not filled within 20 s) are counted "
+        "e2e: scenarios that cannot start (mock / session / prepare failure, pools not settled on every (node, shard) within 20 s) or whose pools changed during the measured phase are counted "
         "not-run (skip-env) and fail the check above max(3, 2 %)",
         "new_session is pure, so creating the session lazily at the first error equals creating it up front",
     ],
